@@ -344,6 +344,7 @@ class SymExec:
         self._paths = {}
         self._search = {}
         self.search_defects = {}    # function id -> (fn, text): a search helper recognised as skipping elements
+        self.call_alias = {}        # function id -> (name, extra argument nfs): calls to it are kept as named calls of `name` (never followed)
         self.value_hook = None      # optional: nf -> nf|None, fixes the value of selected expressions (bounded unrolling)
 
     # ------------------------------------------------------------------ places and versions
@@ -732,6 +733,9 @@ class SymExec:
             if ln == 'operator-' and len(vals) == 1:
                 return self.binop('-', o, vals[0])
             callee = tu.callee_fn(e)
+            if callee is not None and callee['id'] in self.call_alias:
+                al = self.call_alias[callee['id']]
+                return ('call', al[0], o) + tuple(vals) + tuple(al[1])
             if callee is not None and self.recognise_search and self.inline_stmt(callee) and tu.cfg(callee) is not None:
                 summ = self.search_summary(callee)
                 if summ is not None:
@@ -1061,8 +1065,9 @@ class SymExec:
             callee = tu.callee_fn(n)
             has_body = callee is not None and tu.cfg(callee) is not None
             is_ctor = k in ('CXXConstructExpr', 'CXXTemporaryObjectExpr')
+            alias = self.call_alias.get(callee['id']) if callee is not None else None
             follow = (has_body and not is_ctor and depth < self.MAX_INLINE_DEPTH and callee['id'] not in st.stack
-                      and self.inline_stmt(callee))
+                      and self.inline_stmt(callee) and alias is None)
             summ = self.search_summary(callee) if (follow and self.recognise_search) else None
             if follow and callee['id'] in self.search_defects:
                 follow = False        # a search helper recognised as defective is reported once, as such; its call stays a named call
@@ -1083,6 +1088,9 @@ class SymExec:
             if sd.get('rec') and not is_ctor:
                 ev.place = unver(self.call_obj(n, obj, st))   # the object the member is called on
             ev.value = tuple(self.args_nf(sd, args, st, 0))
+            if alias is not None:
+                ev.how = alias[0]
+                ev.value = ev.value + tuple(alias[1])
             st.events.append(ev)
             if self.flatten and last(self.call_name(sd)) == 'operator=' and obj is not None and len(args) == 1 and sd.get('rec'):
                 pl = unver(self.call_obj(n, obj, st))
@@ -1462,7 +1470,7 @@ class SymExec:
 
     def _apply_loop(self, li, st, depth):
         try:
-            return self._loop_search(li, st) or self._loop_compact(li, st)
+            return self._loop_search(li, st) or self._loop_compact(li, st) or self._loop_erase_if(li, st)
         except (Unsupported, KeyError, IndexError, TypeError):
             return False
 
@@ -1504,6 +1512,70 @@ class SymExec:
         val = ('call', 'std::find_if', None, cur, lastnf, pr)
         self._loop_event(li, st, 'std::find_if', val, (cur, lastnf, pr))
         st.env[cid] = val
+        self.bump(('var', cid), st)
+        return True
+
+    def _loop_erase_if(self, li, st):
+        """while (it != C.end()) { if (T(*it)) ++it; else it = C.erase(it); }   (either branch order): every element is tested once, the
+        ones failing T are erased in place, order kept:  C.erase(remove_if(it, C.end(), [!T]), C.end())"""
+        tu = self.tu
+        if li['A'] is not None:
+            return False
+        stmts = self._flat_stmts(li['body']) + ([li['inc']] if li['inc'] else [])
+        if len(stmts) != 1 or stmts[0].get('kind') != 'IfStmt':
+            return False
+        iks = tu.kids(stmts[0])
+        if len(iks) != 3:
+            return False
+        br = [self._flat_stmts(iks[1]), self._flat_stmts(iks[2])]
+        if len(br[0]) != 1 or len(br[1]) != 1:
+            return False
+        ops = [self._incr_operand(br[0][0]), self._incr_operand(br[1][0])]
+        if (ops[0] is None) == (ops[1] is None):
+            return False
+        keep_i = 0 if ops[0] is not None else 1
+        op = ops[keep_i]
+        cid = self.local_var_of(op)
+        cur = self.nf(op, st)
+        lastnf = self._bound_test(li['B'], cur, st)
+        lu = unver(lastnf) if lastnf is not None else None
+        if not (isinstance(lu, tuple) and len(lu) == 3 and lu[0] == 'call' and last(str(lu[1])) == 'end' and self.is_place(lu[2])):
+            return False
+        C = lu[2]
+        asg = tu.strip(br[1 - keep_i][0])
+        if asg is None:
+            return False
+        if asg.get('kind') == 'BinaryOperator' and asg.get('opcode') == '=':
+            lhs, rhs = tu.kids(asg)
+        elif asg.get('kind') == 'CXXOperatorCallExpr' and last(self.call_name(tu.sd(asg))) == 'operator=' and len(tu.kids(asg)) == 3:
+            lhs, rhs = tu.kids(asg)[1:]
+        else:
+            return False
+        if self.local_var_of(lhs) != cid or not self._effect_free(iks[0]):
+            return False
+        s2 = st.clone()
+        s2.vals = {}
+        s2.env[cid] = ('cursor',)
+        r = unver(self.nf(rhs, s2))
+        while isinstance(r, tuple) and r and r[0] == 'construct' and len(r) == 3:
+            r = r[2]
+        if not (isinstance(r, tuple) and len(r) == 4 and r[0] == 'call' and last(str(r[1])) == 'erase' and r[2] == C and r[3] == ('cursor',)):
+            return False
+        t = truth(self.nf(iks[0], s2))
+        t = self._subst(t, {('deref', ('cursor',)): ('lparam', 0)})
+        if contains(t, ('cursor',)) or contains(unver(t), C) or find_all(t, lambda x: x[0] == 'opaque'):
+            return False
+        drop = mk_not(t) if keep_i == 0 else t
+        pr = ('pred', drop)
+        val = ('call', 'std::remove_if', None, cur, lastnf, pr)
+        self._loop_event(li, st, 'std::remove_if', val, (cur, lastnf, pr))
+        m = Event('mutate', li['node'], nf=('call', r[1], C, val, lastnf), place=C, how='erase', value=(val, lastnf), conds_n=len(st.conds),
+                  extra=({}, None, []))
+        m.ver = dict(st.ver)
+        m.idiom = True
+        st.events.append(m)
+        self.bump(C, st)
+        st.env[cid] = lastnf
         self.bump(('var', cid), st)
         return True
 
